@@ -750,7 +750,7 @@ func suidBits(m int64) uint32 {
 }
 
 func TestProp_Overlay(t *testing.T) {
-	pbt.Run(t, pbt.Options{Prop: "C07", Name: "Overlay", Quick: 2000, Thorough: 80000, Current: true, Timeout: 120 * time.Second,
+	pbt.Run(t, pbt.Options{Prop: "C07", Name: "Overlay", Quick: 2000, Thorough: 20000, Current: true, Timeout: 120 * time.Second,
 		Rule: "rapid: stack of 1-4 layer tars over one small name space (additions, replacements file<->dir, .wh.X for existing and absent X, .wh.X next to a real X, opaque markers at any depth, names beginning with .wh., landmark / TOC names in sub-directories, root entry) x opaque mode {trusted, user, all} x store x per-directory order (look every name up before or after the listing is memoised) x child memoisation; " +
 			"a layer with .wh.X and a directory X is reduced (whiteout dropped, counted). oracle: (1) OCI application of the tars == overlayfs merge of what the layers serve (names, types, content, symlink targets, attrs of non-directories and of directories with an entry in the contributing layer); " +
 			"(2) per layer: listed <=> lookup succeeds (tar names, whiteout targets, markers, landmarks, absent names), independent of the order; no marker/landmark/TOC/state-dir listed; opaque xattr exactly on marked directories under exactly the configured names with value y; inode numbers unique per entity, equal in listing and lookup, stable, never 0-2; state file JSON with digest, size, fetchedSize in [0,size]. " +
